@@ -1078,3 +1078,196 @@ REG.add(Contract(MS, "sample", "C16", [("model", _model_t()), ("n", TInt()), ("m
                                        ("seed", _seed_t)], _disp_cases(), pre=_disp_pre, modifies=_disp_mod, result=_res_np("DataFrame"),
                  key="sampling.sample", note="n >= 0, thinning >= 1, processes >= 1; the sampler constructors by the assumed contract "
                                              "HRSampler.__init__@samplers"))
+
+
+# ================================================================ HRSampler.validate (the decision table, row by row)
+# ASSUMED row-wise semantics of the numpy operations validate() ends with (everything before is data flow through the opaque algebra):
+# for an arbitrary row i, RV(t) is the number in row i of the one-dimensional array t (a scalar is broadcast: RV(t) is the scalar);
+# `a < b`, `a <= b`, `a > b`, `-a`, `a & b` act row by row; `codes[mask] = "v"` replaces exactly the rows where the mask holds;
+# `codes[mask] = np.char.add(codes[mask], "l")` appends the letter to exactly those rows.  The ghost `code_row` is the string in row i.
+RV = z3.Function("row:value", N.NP, z3.RealSort())
+_CMP = {"np:lt/2": lambda a, b: a < b, "np:le/2": lambda a, b: a <= b, "np:gt/2": lambda a, b: a > b, "np:ge/2": lambda a, b: a >= b}
+
+
+def row_real(t):
+    if z3.is_app(t) and t.decl().name() == "np:neg/1":
+        return -row_real(t.arg(0))
+    return RV(t)
+
+
+def row_bool(t):
+    nm = t.decl().name() if z3.is_app(t) else ""
+    if nm == "np:and/2":
+        a, b = row_bool(t.arg(0)), row_bool(t.arg(1))
+        return None if a is None or b is None else z3.And(a, b)
+    if nm in _CMP:
+        return _CMP[nm](row_real(t.arg(0)), row_real(t.arg(1)))
+    return None
+
+
+def v_setitem(eng, st, obj, idx, val):
+    if not (isinstance(obj, N.VNp) and isinstance(idx, N.VNp)):
+        return None
+    mask = row_bool(idx.t)
+    if mask is None:
+        raise Unsupported("assignment through an index that is not a row-wise comparison mask")
+    arr = st.ghost.get("codes_arr")
+    if arr is not None and not arr.eq(obj.t):
+        raise Unsupported("mask assignment into a second array")
+    cur = st.ghost.get("code_row", z3.StringVal(""))          # np.repeat("", k): every row starts empty
+    from pyvc.apply import ASSUMED_USED
+    ASSUMED_USED["numpy.rowwise"] = REG.get("numpy.rowwise").note
+    if isinstance(val, VConc) and isinstance(val.py, str):
+        new = z3.If(mask, z3.StringVal(val.py), cur)
+        st = st.setghost("flux_terms", _parse_valid(idx.t))
+    elif isinstance(val, N.VNp) and z3.is_app(val.t) and val.t.decl().name() == "np:numpy.char.add/2" \
+            and val.t.arg(0).eq(N.term("getitem", obj.t, idx.t)) and val.t.arg(1).decl().name() == "np:of_id":
+        letter = [k for k, v in _LIT_NAMES.items() if v.eq(val.t.arg(1).arg(0))]
+        if len(letter) != 1:
+            raise Unsupported("np.char.add with an unknown letter")
+        new = z3.If(mask, z3.Concat(cur, z3.StringVal(letter[0])), cur)
+    else:
+        raise Unsupported("mask assignment of something else than a letter / np.char.add(codes[mask], letter)")
+    return [("ok", st.setghost("codes_arr", obj.t).setghost("code_row", new), NONE)]
+
+
+_LIT_NAMES = {k: id_lit(k) for k in ("v", "l", "u", "e")}
+
+
+def _parse_valid(mask):
+    """the right-hand side `b` and the `bounds` matrix the code used, read off the term of the `valid` mask (flux space: they are
+    np.array(<list built by a comprehension over the model>) resp. its transpose - the CONTENT of those python lists is not tracked)"""
+    try:
+        nm = lambda t: t.decl().name()
+        feas = mask.arg(0).arg(0).arg(0)                       # and(and(lt(feas, tol), gt(lb, -btol)), gt(ub, -btol))
+        b = feas.arg(0).arg(0).arg(0).arg(1)                   # call(axis)(attr.max(numpy.abs(sub(., b))), 1)
+        lb = mask.arg(0).arg(1).arg(0)
+        if nm(lb) == "np:numpy.minimum/2":
+            lb = lb.arg(0)
+        bounds = lb.arg(0).arg(0).arg(1).arg(0)                # call(axis)(attr.min(sub(samples, getitem(bounds, (0,)))), 1)
+        ok = (nm(b) == "np:numpy.array/1" and z3.is_const(b.arg(0)) and nm(b.arg(0)).startswith("np:pylist")
+              and nm(bounds) == "np:attr.T/1" and nm(bounds.arg(0)) == "np:numpy.array/1" and nm(bounds.arg(0).arg(0)).startswith("np:pylist"))
+        return (b, bounds) if ok or nm(b) == "np:attr.b/1" else None
+    except Exception:  # noqa
+        return None
+REG.add(Contract("numpy", "rowwise", "C16", [("self", TNone())], [Case("any")], assumed=True, key="numpy.rowwise",
+                 note="row-wise semantics of <, <=, >, unary -, &, boolean-mask assignment `a[mask] = s` and `a[mask] = np.char.add(a[mask], s)` "
+                      "on one-dimensional arrays (scalars broadcast); np.repeat('', k) is k empty strings"))
+
+
+def v_global(eng, name):
+    if name == "create_stoichiometric_matrix":
+        return VFunc("abstract", "create_stoichiometric_matrix")
+    return None
+
+
+def v_call_abstract(eng, st, f, pos, kw):
+    if f.a == "create_stoichiometric_matrix":
+        return [("ok", st, N.VNp(z3.Const("np:create_stoichiometric_matrix(self.model)", N.NP)))]
+    return None
+
+
+HOOKS_V = chain_hooks({"setitem": v_setitem, "global": v_global, "call_abstract": v_call_abstract}, HOOKS)
+
+
+def _vmodel_t():
+    return TObj("Model", {"reactions": TList("np"), "variables": TList("np"), "metabolites": TList("np"), "constraints": N.TNp()})
+
+
+def _vsampler_t():
+    attrs = {k: TInt() for k in INT_ATTRS}
+    attrs.update({k: N.TNp() for k in NP_ATTRS})
+    attrs["model"] = _vmodel_t()
+    return TObj("HRSampler", attrs)
+
+
+def _vshape(E):
+    s2 = N.term("numpy.atleast_2d", E["samples"].t)
+    cols = N.term("getitem", N.term("attr.shape", s2), N.of_int(1))
+    model = at(E.s0, E["self"], "model")
+    n_r = E.s0.objs[at(E.s0, model, "reactions").oid]["len"]
+    n_v = E.s0.objs[at(E.s0, model, "variables").oid]["len"]
+    return s2, N.truthy(N.term("eq", cols, N.of_int(n_r))), N.truthy(N.term("eq", cols, N.of_int(n_v)))
+
+
+def code_table(f, lb, ub, tol, btol):
+    """the documented letters: v = feasible in bounds and equalities; l / u = a lower / upper bound violated; e = an equality violated"""
+    S = z3.StringVal
+    return z3.Concat(z3.If(z3.And(f < tol, lb > -btol, ub > -btol), S("v"), S("")), z3.If(lb <= -btol, S("l"), S("")),
+                     z3.If(ub <= -btol, S("u"), S("")), z3.If(f > tol, S("e"), S("")))
+
+
+def _v_terms(E, s2, Smat, b, bounds, with_ineq):
+    prob = at(E.s0, E["self"], "problem").t
+    row = lambda a, i: N.term("getitem", a, N.term("tuple", N.of_int(i)))
+    ax1 = lambda name, x: N.term("call(axis)", N.term("attr." + name, x), N.of_int(1))
+    T_ = lambda x: N.term("attr.T", x)
+    feas = ax1("max", N.term("numpy.abs", N.term("sub", T_(N.term("call", N.term("attr.dot", Smat), T_(s2))), b)))
+    lb = ax1("min", N.term("sub", s2, row(bounds, 0)))
+    ub = ax1("min", N.term("sub", row(bounds, 1), s2))
+    if with_ineq:
+        consts = T_(N.term("call", N.term("attr.dot", N.term("attr.inequalities", prob)), T_(s2)))
+        pb = N.term("attr.bounds", prob)
+        lb = N.term("numpy.minimum", lb, ax1("min", N.term("sub", consts, row(pb, 0))))
+        ub = N.term("numpy.minimum", ub, ax1("min", N.term("sub", row(pb, 1), consts)))
+    return feas, lb, ub
+
+
+def _v_post(space):
+    def post(E):
+        me, s0, s1 = E["self"], E.s0, E.s1
+        s2, is_flux, is_var = _vshape(E)
+        prob = at(s0, me, "problem").t
+        tol, btol = RV(at(s0, me, "feasibility_tol").t), RV(at(s0, me, "bounds_tol").t)
+        code = s1.ghost.get("code_row")
+        arr = s1.ghost.get("codes_arr")
+        if code is None or arr is None or not isinstance(E.res, N.VNp):
+            return z3.BoolVal(False)
+        if space == "flux":
+            Smat = z3.Const("np:create_stoichiometric_matrix(self.model)", N.NP)
+            b = bounds = None                      # built from comprehensions over the model (opaque lists): taken from the code's terms
+        else:
+            Smat, b, bounds = N.term("attr.equalities", prob), N.term("attr.b", prob), N.term("attr.variable_bounds", prob)
+        ineq = z3.And(is_var, N.truthy(N.term("getitem", N.term("attr.shape", N.term("attr.inequalities", prob)), N.of_int(0))))
+        cs = [E.res.t == arr]                      # the array of codes is what is returned
+        if space == "var":
+            tabs = []
+            for w in (True, False):
+                f, lb, ub = _v_terms(E, s2, Smat, b, bounds, w)
+                tabs.append(code_table(RV(f), RV(lb), RV(ub), tol, btol))
+            cs.append(code == z3.If(ineq, tabs[0], tabs[1]))
+        else:
+            fl = s1.ghost.get("flux_terms")
+            if fl is None or fl[0].decl().name() != "np:numpy.array/1":
+                return z3.BoolVal(False)
+            tabs = []
+            for w in (True, False):
+                f, lb, ub = _v_terms(E, s2, Smat, fl[0], fl[1], w)
+                tabs.append(code_table(RV(f), RV(lb), RV(ub), tol, btol))
+            cs.append(code == z3.If(ineq, tabs[0], tabs[1]))
+        # consequences of the table (documented: "a code of 1 to 3 letters", 'v' = feasible): stated for a residual that is not EXACTLY
+        # the tolerance (at feasibility == feasibility_tol, and for NaN, the code is the EMPTY string - see the finding in the docstring)
+        f, lb, ub = _v_terms(E, s2, Smat, b if space == "var" else s1.ghost.get("flux_terms")[0],
+                             bounds if space == "var" else s1.ghost.get("flux_terms")[1], False)
+        fr = RV(f)
+        cs.append(z3.Implies(z3.And(z3.Not(ineq), fr != tol), z3.And(z3.Length(code) >= 1, z3.Length(code) <= 3)))
+        cs.append(z3.Implies(z3.Not(ineq), z3.And((code == z3.StringVal("v")) == z3.And(fr < tol, RV(lb) > -btol, RV(ub) > -btol),
+                                                  z3.Contains(code, z3.StringVal("l")) == (RV(lb) <= -btol),
+                                                  z3.Contains(code, z3.StringVal("u")) == (RV(ub) <= -btol),
+                                                  z3.Contains(code, z3.StringVal("e")) == (fr > tol))))
+        return z3.And(*cs)
+    return post
+
+
+def _v_cases():
+    flux = Case("flux_space", requires=lambda E: _vshape(E)[1], ensures=_v_post("flux"))
+    var = Case("variable_space", requires=lambda E: z3.And(z3.Not(_vshape(E)[1]), _vshape(E)[2]), ensures=_v_post("var"))
+    other = Case("wrong_columns", requires=lambda E: z3.And(z3.Not(_vshape(E)[1]), z3.Not(_vshape(E)[2])), raises="ValueError")
+    return [flux, var, other]
+
+
+REG.add(Contract(MH, "HRSampler.validate", "C16", [("self", _vsampler_t()), ("samples", N.TNp())], _v_cases(),
+                 modifies=lambda E: [("ghost", "code_row", lambda st: None), ("ghost", "codes_arr", lambda st: None),
+                                     ("ghost", "flux_terms", lambda st: None)],
+                 result=_res_np("codes"), key="HRSampler.validate",
+                 note="row-wise semantics of the final numpy operations assumed (contract numpy.rowwise)"))
